@@ -10,6 +10,7 @@ import (
 	"fmt"
 	"sort"
 	"strings"
+	"sync/atomic"
 )
 
 // VerifBrokerIdent returns (id, address) of a broker object without opening it.
@@ -92,7 +93,11 @@ func VerifClientDump(c Client) string {
 			fmt.Fprintf(&sb, "%d=nil,", id)
 			continue
 		}
-		fmt.Fprintf(&sb, "%d=%d@%s,", id, b.id, b.addr)
+		open := ""
+		if atomic.LoadInt32(&b.opened) == 1 {
+			open = "+" // somebody opened it (a refresh that had to fall back on it, or the application)
+		}
+		fmt.Fprintf(&sb, "%d=%d@%s%s,", id, b.id, b.addr, open)
 	}
 	sb.WriteString("} G{")
 	groups := make([]string, 0, len(cl.coordinators))
